@@ -44,3 +44,42 @@ func VHRandomContracts() {
 		vAssert(0 <= *v.Number && *v.Number < 1, "random() in [0,1)")
 	}
 }
+
+// VHDeterminism (C09, relational): two function tables built from the same non-empty seed, driven with
+// the same calls, give the same results and errors -- with an unrelated third generator used in between,
+// independent environment answers for each copy (global rand source, clock) and a solver-chosen map
+// iteration order in the registration loop. The stream of math/rand for a seed is an uninterpreted
+// function of (seed, call index, bound): equal seeds and call sequences give equal values by the
+// stdlib's contract, and any use of another source of randomness makes the copies diverge.
+func VHDeterminism() {
+	seed := vString("seed", 1+vChoose("seedlen", 2))
+	a := vNewFunctionStorer(seed)
+	other := vNewFunctionStorer("zz")
+	b := vNewFunctionStorer(seed)
+	calls := vParam("CALLS", 2)
+	for i := 0; i < calls; i++ {
+		tag := "call" + vItoa(i)
+		var name string
+		var args []*variable.Value
+		switch vChoose(tag+".fn", 3) {
+		case 0:
+			name = "dice"
+			args = []*variable.Value{vNum(float64(int(vInt32(tag + ".n"))))}
+		case 1:
+			name = "random_range"
+			args = []*variable.Value{vNum(float64(int(vInt32(tag + ".a")))), vNum(float64(int(vInt32(tag + ".b"))))}
+		case 2:
+			name = "random"
+		}
+		ra, ea := a.call(name, args)
+		if vChoose(tag+".interleave", 2) == 1 {
+			other.call("dice", []*variable.Value{vNum(6)}) // an unrelated runner runs in between
+		}
+		rb, eb := b.call(name, args)
+		vAssert((ea != nil) == (eb != nil), "same errors for the same seed and calls")
+		if ea == nil && eb == nil {
+			vAssert(vKind(ra) == 0 && vKind(rb) == 0 && vSameFloat(*ra.Number, *rb.Number), "same random results for the same seed and calls")
+			vReach("compared")
+		}
+	}
+}
